@@ -96,7 +96,7 @@ impl<F: RichField> GenericHashOut<F> for HashOut<F> {
             elements: bytes
                 .chunks(8)
                 .take(NUM_HASH_OUT_ELTS)
-                .map(|x| F::from_canonical_u64(u64::from_le_bytes(x.try_into().unwrap())))
+                .map(|x| F::from_noncanonical_u64(u64::from_le_bytes(x.try_into().unwrap())))
                 .collect::<Vec<_>>()
                 .try_into()
                 .unwrap(),
